@@ -98,7 +98,9 @@ func c13hugeArrays(c *core.Ctx, r *rand.Rand) {
 			v.A[k] = int64(k & 0x3f)
 		}
 		if n%2 == 0 {
-			v.Z = make([]struct{}, n)
+			// zero-width items: a modest number only (how many of those a reader is prepared to accept is its own
+			// business: a count of items that occupy no bytes is not backed by any input)
+			v.Z = make([]struct{}, 1000)
 		}
 		wb.Reset()
 		codec.Write(wb, unsafe.Pointer(&v))
@@ -124,6 +126,39 @@ func c13hugeArrays(c *core.Ctx, r *rand.Rand) {
 	}
 }
 
+func c13pointerFree(r *rand.Rand) (*gen.DataSchema, *gen.T) {
+	ds := &gen.DataSchema{Hints: map[*refavro.Schema]*gen.Hint{}}
+	long := func() *refavro.Schema {
+		s := &refavro.Schema{Type: "long"}
+		ds.Hints[s] = &gen.Hint{Bits: 64}
+		return s
+	}
+	null := func(s *refavro.Schema) *refavro.Schema {
+		u := &refavro.Schema{Type: "union", Branches: []*refavro.Schema{{Type: "null"}, s}}
+		if r.IntN(3) == 0 {
+			u.Branches[0], u.Branches[1] = u.Branches[1], u.Branches[0]
+		}
+		return u
+	}
+	item := func(name string) *refavro.Schema {
+		return &refavro.Schema{Type: "record", ObjectForm: true, Name: name, Fields: []refavro.Field{
+			{Name: "count", Type: null(long())}, {Name: "level", Type: &refavro.Schema{Type: "double"}},
+			{Name: "flag", Type: null(&refavro.Schema{Type: "boolean"})}, {Name: "ratio", Type: null(&refavro.Schema{Type: "double"})}, {Name: "n", Type: long()}}}
+	}
+	ds.S = &refavro.Schema{Type: "record", ObjectForm: true, Name: "pf", Fields: []refavro.Field{
+		{Name: "m", Type: &refavro.Schema{Type: "map", ObjectForm: true, Values: item("pfm")}},
+		{Name: "a", Type: &refavro.Schema{Type: "array", ObjectForm: true, Items: item("pfa")}},
+		{Name: "tail", Type: long()}}}
+	L := gen.Leaf
+	it := func() *gen.T {
+		// omitempty: the zero value of these plain fields is written as null
+		return gen.StructOf(gen.Fld("Count", "count", true, L(gen.KInt64)), gen.Fld("Level", "level", false, L(gen.KFloat64)),
+			gen.Fld("Flag", "flag", true, L(gen.KBool)), gen.Fld("Ratio", "ratio", r.IntN(2) == 0, L(gen.KFloat64)), gen.Fld("N", "n", false, L(gen.KInt64)))
+	}
+	t := gen.StructOf(gen.Fld("M", "m", false, gen.MapOf(it())), gen.Fld("A", "a", false, gen.SliceOf(it())), gen.Fld("Tail", "tail", false, L(gen.KInt64)))
+	return ds, t
+}
+
 func runC13(c *core.Ctx, i int) {
 	r := c.Rand(i, 0)
 	if i%2000 == 11 {
@@ -135,6 +170,12 @@ func runC13(c *core.Ctx, i int) {
 		c.Count("fixed-width-only-schemas", 1)
 	}
 	t := ds.Target(r, ds.S, gen.TargetOpts{PlainNullPrimOnly: true, OmitTags: true})
+	if i%16 == 9 {
+		// maps and arrays of small records held by value whose fields are numbers and booleans only, some of them
+		// nullable and covered by plain Go fields (a null leaves the zero value)
+		ds, t = c13pointerFree(r)
+		c.Count("pointer-free-record-collections", 1)
+	}
 	if i%3 == 2 {
 		// the Go struct lists its fields in another order than the caller's schema does
 		t = gen.Permute(r, t)
